@@ -89,6 +89,24 @@ func HarnessC04Persistent() { c04Deliver(Config{Persistent: true}, 1, 2, 0) }
 func HarnessC04Blocking()   { c04Deliver(Config{BlockPublishUntilSubscriberAck: true}, 2, 2, 1) }
 func HarnessC04Full()       { c04Deliver(Config{}, 2, 2, 1) }
 
+// HarnessC04BufferedSlowSibling: with buffered output channels a subscription that holds its copy unsettled does not
+// keep the message from the other subscriptions of the topic.
+func HarnessC04BufferedSlowSibling() {
+	g := newPubSub(Config{OutputChannelBuffer: int64(vrt.Int("buffer", 1, 2)), Persistent: vrt.Bool("persistent")})
+	chA, err := g.Subscribe(context.Background(), "t")
+	vrt.Assert(err == nil, "subscribe A")
+	chB, err := g.Subscribe(context.Background(), "t")
+	vrt.Assert(err == nil, "subscribe B")
+	go func() {
+		vrt.MayBlock()
+		<-chA // received, never settled
+	}()
+	vrt.Assert(g.Publish("t", newMsg(0)) == nil, "publish")
+	m := <-chB // main must get here
+	vrt.Assert(m.UUID == "u0", "the other subscription receives the message although its sibling has not settled its copy")
+	m.Ack()
+}
+
 // HarnessC04CancelOther: subscriptions A and B on one topic; A's context is cancelled at an arbitrary
 // moment around a Publish. B stays open: it must receive the message exactly once (no duplicate, no loss).
 func HarnessC04CancelOther() {
@@ -112,6 +130,8 @@ func HarnessC04CancelOther() {
 	})
 }
 
-func HarnessC04ThreeSubs()       { c04Deliver(Config{}, 1, 3, 1) }
-func HarnessC04PersistentFull()  { c04Deliver(Config{Persistent: true, OutputChannelBuffer: 1}, 2, 2, 1) }
-func HarnessC04ThreeMsgs()       { c04Deliver(Config{}, 3, 1, 1) }
+func HarnessC04ThreeSubs() { c04Deliver(Config{}, 1, 3, 1) }
+func HarnessC04PersistentFull() {
+	c04Deliver(Config{Persistent: true, OutputChannelBuffer: 1}, 2, 2, 1)
+}
+func HarnessC04ThreeMsgs() { c04Deliver(Config{}, 3, 1, 1) }
